@@ -161,7 +161,13 @@ def sample_cfg(name: str, rng, tier: str = "quick", small: bool = True) -> dict:
             cfg["gen"]["min_lateness_weight"] = 0.25
             cfg["gen"]["max_lateness_weight"] = 0.75
     elif name == "mtvrp":
-        cfg["gen"] = {"num_loc": n, "variant_preset": rng.choice(MTVRP_VARIANTS + ["all", "all"])}
+        # mixed-variant batches are the documented default use ("all"): give them real weight, and some
+        # mid-size instances so that route-level limits (time, distance) bind
+        if rng.random() < 0.3:
+            n = rng.randint(12, 24)
+            cfg["n"] = n
+        preset = "all" if rng.random() < 0.4 else rng.choice(MTVRP_VARIANTS)
+        cfg["gen"] = {"num_loc": n, "variant_preset": preset}
         if rng.random() < 0.3:
             cfg["gen"]["speed"] = rng.choice([0.8, 2.0])  # 0.5 makes far customers unreachable within max_time
     elif name == "fjsp":
